@@ -4,6 +4,7 @@ import (
 	"fmt"
 	"net/url"
 	"os"
+	"strconv"
 	"strings"
 	"time"
 
@@ -57,22 +58,67 @@ func cfgKey(class string) (keyArg, *jws.Key) {
 var algPool = []string{"", "HS256", "HS384", "RS256", "ES256", "EdDSA", "RS512", "PS256", "none", "HS999", "hs256"}
 
 type legacyCase struct {
-	Defaults     bool        `json:"defaults"`
-	Jwt, Pub, Sub keyArg     `json:"-"`
-	JwtClass     string      `json:"jwt_key"`
-	PubClass     string      `json:"publisher_jwt_key"`
-	SubClass     string      `json:"subscriber_jwt_key"`
-	JwtAlg       *string     `json:"jwt_algorithm"`
-	PubAlg       *string     `json:"publisher_jwt_algorithm"`
-	SubAlg       *string     `json:"subscriber_jwt_algorithm"`
-	Anonymous    bool        `json:"allow_anonymous"`
-	Subs         bool        `json:"subscriptions"`
-	WT, DT, HB   *int        `json:"-"`
-	WTms         *int        `json:"write_timeout_ms"`
-	DTms         *int        `json:"dispatch_timeout_ms"`
-	HBms         *int        `json:"heartbeat_interval_ms"`
-	POrigins     []originArg `json:"publish_allowed_origins"`
-	COrigins     []originArg `json:"cors_allowed_origins"`
+	Defaults      bool        `json:"defaults"`
+	Jwt, Pub, Sub keyArg      `json:"-"`
+	JwtClass      string      `json:"jwt_key"`
+	PubClass      string      `json:"publisher_jwt_key"`
+	SubClass      string      `json:"subscriber_jwt_key"`
+	JwtAlg        *string     `json:"jwt_algorithm"`
+	PubAlg        *string     `json:"publisher_jwt_algorithm"`
+	SubAlg        *string     `json:"subscriber_jwt_algorithm"`
+	Anonymous     bool        `json:"allow_anonymous"`
+	Subs          bool        `json:"subscriptions"`
+	WT, DT, HB    *int        `json:"-"`
+	WTms          *int        `json:"write_timeout_ms"`
+	DTms          *int        `json:"dispatch_timeout_ms"`
+	HBms          *int        `json:"heartbeat_interval_ms"`
+	POrigins      []originArg `json:"publish_allowed_origins"`
+	COrigins      []originArg `json:"cors_allowed_origins"`
+	// transport_url: unset | local | bolt-abs | bolt-rel | bolt-nopath | unknown, with query parameters
+	UKind   string  `json:"transport_url_kind"`
+	USize   *string `json:"transport_url_size"`
+	UFreq   *string `json:"transport_url_cleanup_frequency"`
+	UBucket *string `json:"transport_url_bucket_name"`
+}
+
+func (cs legacyCase) transportURL(dir string) string {
+	q := url.Values{}
+	set := func(k string, v *string) {
+		if v != nil {
+			q.Set(k, *v)
+		}
+	}
+	set("size", cs.USize)
+	set("cleanup_frequency", cs.UFreq)
+	set("bucket_name", cs.UBucket)
+	base := ""
+	switch cs.UKind {
+	case "local":
+		return "local://local"
+	case "bolt-abs":
+		base = "bolt://" + dir + "/u.db"
+	case "bolt-rel":
+		base = "bolt://u.db"
+	case "bolt-nopath":
+		base = "bolt://"
+	default:
+		base = "redis://u.db"
+	}
+	if len(q) != 0 {
+		base += "?" + q.Encode()
+	}
+
+	return base
+}
+
+// floatWire: strconv.ParseFloat is a parameter of the model: the verdict and the value rendered canonically.
+func floatWire(s string) string {
+	f, err := strconv.ParseFloat(s, 64)
+	if err != nil {
+		return "0:"
+	}
+
+	return "1:" + h.Hex(strconv.FormatFloat(f, 'g', -1, 64))
 }
 
 func originsWire(os []originArg) string {
@@ -117,6 +163,7 @@ func showEffective(o mercure.VerifOptions, pubAlg, subAlg string) string {
 // probeAlg finds, by sending tokens, which (key, alg) the hub really verifies with for a role.
 func probeAlg(hub *mercure.Hub, publisher bool, cands map[string]*jws.Key) string {
 	f := &fixture{hub: hub, cookie: "mercureAuthorization"}
+	var accepted []string
 	for _, alg := range []string{"HS256", "HS384", "HS512", "RS256", "RS384", "RS512", "ES256", "ES384", "ES512", "EdDSA"} {
 		fam := alg[:2]
 		for class, k := range cands {
@@ -143,9 +190,17 @@ func probeAlg(hub *mercure.Hub, publisher bool, cands map[string]*jws.Key) strin
 				st = f.doGet(a, hubURL, url.Values{"topic": {"t"}}, nil).Status()
 			}
 			if st == 200 {
-				return alg
+				accepted = append(accepted, alg)
+
+				break
 			}
 		}
+	}
+
+	// every algorithm the hub accepts for this role: exactly the configured one, or the configuration is
+	// not the one in effect
+	if len(accepted) > 0 {
+		return strings.Join(accepted, "+")
 	}
 
 	return "?"
@@ -156,7 +211,26 @@ func runLegacyCase(c *h.Ctx, r *h.Report, cs legacyCase) {
 	if cs.Defaults {
 		mercure.SetConfigDefaults(v)
 	}
-	v.Set("transport_url", "local://local")
+	dir := scratchDir()
+	defer os.RemoveAll(dir)
+	if wd, err := os.Getwd(); err == nil {
+		defer os.Chdir(wd)
+	}
+	os.Chdir(dir) // relative database paths (updates.db, u.db) land in the scratch directory
+	tline := []string{"cfg.transport", "legacy=1", "defaults=" + h.B(cs.Defaults)}
+	if cs.UKind != "" && cs.UKind != "unset" {
+		tu := cs.transportURL(dir)
+		v.Set("transport_url", tu)
+		u, perr := url.Parse(tu)
+		if perr != nil {
+			panic(perr)
+		}
+		q := u.Query()
+		tline = append(tline, "url=1", "scheme="+h.Hex(u.Scheme), "upath="+h.Hex(u.Path), "host="+h.Hex(u.Host), "usize="+h.Hex(q.Get("size")),
+			"ufreq="+h.Hex(q.Get("cleanup_frequency")), "ufreqarg="+floatWire(q.Get("cleanup_frequency")), "ubucket="+h.Hex(q.Get("bucket_name")))
+	} else {
+		tline = append(tline, "url=0")
+	}
 	setKey := func(name string, k keyArg) {
 		if k.Class != "absent" {
 			v.Set(name, k.Text)
@@ -217,7 +291,8 @@ func runLegacyCase(c *h.Ctx, r *h.Report, cs legacyCase) {
 		"anon="+h.B(cs.Anonymous), "subs="+h.B(cs.Subs), "wt="+optIntWire(cs.WTms), "dt="+optIntWire(cs.DTms), "hb="+optIntWire(cs.HBms),
 		"porigins="+originsWire(cs.POrigins), "corigins="+originsWire(cs.COrigins))
 	model := c.Driver.Ask1(line)
-	r.Evaluations++
+	tmodel := c.Driver.Ask1(h.Line(tline...))
+	r.Evaluations += 2
 	impl := "err"
 	rp := map[string]any{"family": "cfglegacy", "case": cs}
 	if err == nil {
@@ -231,6 +306,21 @@ func runLegacyCase(c *h.Ctx, r *h.Report, cs legacyCase) {
 			subAlg = probeAlg(hub, false, map[string]*jws.Key{cs.Sub.Class: sk, cs.Jwt.Class + "": jk})
 		}
 		impl = showEffective(o, pubAlg, subAlg)
+		if strings.Contains(pubAlg, "+") || strings.Contains(subAlg, "+") {
+			r.Violate(h.Violation{Key: "C19:tokens-of-another-algorithm-accepted",
+				What: fmt.Sprintf("legacy options %s: the hub accepts publisher tokens signed with %s and subscriber tokens signed with %s — more than the one configured algorithm per role", line, pubAlg, subAlg), Replay: rp})
+		}
+		switch t := mercure.VerifHubTransport(hub).(type) {
+		case *mercure.BoltTransport:
+			p, b, sz, fr := mercure.VerifBoltConfig(t)
+			impl += fmt.Sprintf(" | ok kind=bolt path=%s bucket=%s size=%d freq=%s", h.Hex(p), h.Hex(b), sz, h.Hex(strconv.FormatFloat(fr, 'g', -1, 64)))
+			r.Count("transport in effect: bolt")
+		case *mercure.LocalTransport:
+			impl += " | ok kind=local"
+			r.Count("transport in effect: local")
+		default:
+			impl += fmt.Sprintf(" | ok kind=%T", t)
+		}
 		// fail-closed oracle on the implementation alone: a hub that started must not be weaker than configured
 		anonProbe := (&fixture{hub: hub, cookie: "mercureAuthorization"}).doGet(authParts{}, hubURL, url.Values{"topic": {"t"}}, nil).Status()
 		if !cs.Anonymous && anonProbe == 200 {
@@ -252,8 +342,13 @@ func runLegacyCase(c *h.Ctx, r *h.Report, cs legacyCase) {
 		r.Count("rejected")
 	}
 	m := model
-	if strings.HasPrefix(m, "err:") {
+	if strings.HasPrefix(m, "err:") || strings.HasPrefix(tmodel, "err:") {
+		if !strings.HasPrefix(m, "err:") {
+			r.Count("rejected by the model because of the transport: " + tmodel)
+		}
 		m = "err"
+	} else {
+		m += " | " + tmodel
 	}
 	if m != impl {
 		r.Disagree(h.Disagreement{Class: "C19.provisionLegacy", Case: cs, Model: model, Impl: impl + fmt.Sprintf(" (%v)", err)})
@@ -265,7 +360,7 @@ func runLegacyCase(c *h.Ctx, r *h.Report, cs legacyCase) {
 }
 
 func runCfgLegacy(c *h.Ctx, r *h.Report) {
-	r.Rule = "legacy viper options through NewHubFromViper (with and without SetConfigDefaults): jwt_key / publisher_jwt_key / subscriber_jwt_key in {absent, HMAC secret, RSA / EC / Ed25519 public PEM} x the three *_algorithm options in {unset, '', HS256, HS384, RS256, ES256, EdDSA, RS512, PS256, none, HS999, hs256} x allow_anonymous x subscriptions x the three durations in {unset, 0, other} x publish / CORS origins from a pool of valid and invalid origins. The effective options are read back (white-box accessor) and the effective verification key/algorithm of each role is found by probing with tokens minted by the harness; compared with the model. Oracles on the implementation alone: a hub that starts never accepts anonymous subscribers unless allowed; a duration set to 0 is disabled. Non-trivial = configuration with a publisher key (so that start-up gets past the first check); distinct by content."
+	r.Rule = "legacy viper options through NewHubFromViper (with and without SetConfigDefaults): jwt_key / publisher_jwt_key / subscriber_jwt_key in {absent, HMAC secret, RSA / EC / Ed25519 public PEM} x the three *_algorithm options in {unset, '', HS256, HS384, RS256, ES256, EdDSA, RS512, PS256, none, HS999, hs256} x allow_anonymous x subscriptions x the three durations in {unset, 0, other} x publish / CORS origins from a pool of valid and invalid origins x transport_url in {unset, local://, bolt:// absolute / relative / without path, unknown scheme} with size / cleanup_frequency / bucket_name parameters from pools of well-formed and malformed arguments. The effective options and the transport in effect (kind, file, bucket, size, cleanup frequency) are read back (white-box accessor) and the effective verification key/algorithm of each role is found by probing with tokens minted by the harness; compared with the model. Oracles on the implementation alone: a hub that starts never accepts anonymous subscribers unless allowed; a duration set to 0 is disabled. Non-trivial = configuration with a publisher key (so that start-up gets past the first check); distinct by content."
 	// NewHubFromViper builds a zap production logger on stderr: silence it for this family
 	if devnull, err := os.OpenFile(os.DevNull, os.O_WRONLY, 0); err == nil {
 		saved := os.Stderr
@@ -335,6 +430,21 @@ func runCfgLegacy(c *h.Ctx, r *h.Report) {
 		if rr.Chance(1, 4) {
 			cs.COrigins = append(cs.COrigins, h.Pick(rr, originPool))
 		}
+		cs.UKind = h.Pick(rr, []string{"unset", "unset", "local", "local", "bolt-abs", "bolt-rel", "bolt-nopath", "unknown"})
+		sizePool := []string{"0", "5", "100", "007", "18446744073709551615", "18446744073709551616", "-1", "1_0", "abc", "1e3", "+3", "3 "}
+		freqPool := []string{"0", "1", "0.5", "0.3", "1e-1", ".5", "x", "0x1p-2", "1_0", "2"}
+		if !rr.Chance(1, 4) {
+			sizePool, freqPool = sizePool[:5], freqPool[:6]
+		}
+		pickS := func(pool []string) *string {
+			if !rr.Bool() {
+				return nil
+			}
+			s := h.Pick(rr, pool)
+
+			return &s
+		}
+		cs.USize, cs.UFreq, cs.UBucket = pickS(sizePool), pickS(freqPool), pickS([]string{"updates", "b", "", "my bucket"})
 		runLegacyCase(c, r, cs)
 	}
 }
